@@ -378,8 +378,11 @@ def run_cli(argv, agent, max_reads=500, on_read=None):
     try:
         with _Installed(term, full_argv):
             try:
-                cc.main()
+                rv = cc.main()
                 res["exit"] = 0
+                # the installed console script is `sys.exit(main())`: whatever main() returns
+                # becomes the exit status there
+                res["main_returned"] = canon(rv)
             except SimAbort:
                 res["aborted"] = True
             except SystemExit as e:
